@@ -109,6 +109,9 @@ func main() {
 	w := bufio.NewWriterSize(f, 1<<20)
 	defer w.Flush()
 
+	if *det > 1 {
+		fmt.Fprintln(w, wiringProbe())
+	}
 	if *replay != "" {
 		data, err := os.ReadFile(*replay)
 		if err != nil {
